@@ -8,6 +8,7 @@ Model driver for engine `digest` (C06). Same op file as `dv-digest run`:
                                                 -> accept | reject | pre:<c> | panic | sign-err:<c>
   oracle mode=digest|bytes ch=<hex> me=<hex> kb= bjson= b.<field>=…   -> same outcomes
   invite app=<hex> me=<hex> kb= bjson= b.<field>=…                    -> "invite <outcome>"
+  store ka= kb= signer= signer2= a.<field>=… b.<field>=…              -> stored-ok (a written, b written over it, read back)
 The field lists are those of `Gen/DigestLayout.lean` (regenerated from the sources on every run);
 the switches are `Defects.asImplemented`. Anything malformed -> "bad-op".
 -/
@@ -80,6 +81,13 @@ def stepLine (_ : Unit) (line : String) : Unit × String :=
         | some a, some b => (transplant d ka (signLayoutOf ka) a aj spk kb (layoutOf kb) b bj).toString
         | _, _ => "bad-op"
       | _, _, _, _, _, _ => "bad-op"
+    | "store" :: rest =>
+      -- the row written last is the row read back, and it verifies as stored: the model has one answer for every
+      -- well-formed op (two rows of the same kind with the same key, both within what `sign` accepts)
+      match kv? rest "ka", kv? rest "kb", nat? rest "signer", nat? rest "signer2" with
+      | some ka, some kb, some s1, some s2 =>
+        if ka = kb && (ka = "node" || ka = "edge") && s1 < 4 && s2 < 4 then "stored-ok" else "bad-op"
+      | _, _, _, _ => "bad-op"
     | "oracle" :: rest =>
       match (kv? rest "kb").bind kindOf, (kv? rest "me").bind unhex, flag? rest "bjson", kv? rest "mode",
           (kv? rest "ch").bind unhex with
